@@ -770,6 +770,35 @@ func runDocCase(c dCase) dEvent {
 		}
 		ev.Out = w.projOut(c.Doc, payload, url)
 		ev.Back = w.projBack(c.Doc, payload, doc)
+		// the same document object once its owner has rearranged what it is free to rearrange
+		// (the included list, the listed names): the content is the same, so are the bytes
+		seen, distinct := map[string]bool{}, true
+		for _, r := range doc.Included {
+			id, _ := r.Get("id").(string)
+			distinct = distinct && !seen[id]
+			seen[id] = true
+		}
+		if distinct { // the property speaks of included resources with distinct ids
+			for i, j := 0, len(doc.Included)-1; i < j; i, j = i+1, j-1 {
+				doc.Included[i], doc.Included[j] = doc.Included[j], doc.Included[i]
+			}
+		}
+		for _, names := range doc.RelData {
+			for i, j := 0, len(names)-1; i < j; i, j = i+1, j-1 {
+				names[i], names[j] = names[j], names[i]
+			}
+		}
+		for _, names := range url.Params.Fields {
+			for i, j := 0, len(names)-1; i < j; i, j = i+1, j-1 {
+				names[i], names[j] = names[j], names[i]
+			}
+		}
+		if again, err := jsonapi.MarshalDocument(doc, url); err != nil || !bytes.Equal(again, payload) {
+			ev.Det.PermSame = false
+			if os.Getenv("VERIF_DEBUG") != "" {
+				fmt.Fprintf(os.Stderr, "FIRST %s\nAGAIN %s\n", payload, again)
+			}
+		}
 	})
 	switch {
 	case p:
